@@ -341,6 +341,15 @@ def write_evidence(ctx, violations):
     return path
 
 
+def _kinds(failures):
+    out = {}
+    for f in failures:
+        fp = f.get('fingerprint') or ['?']
+        k = ' '.join(str(x) for x in fp[:2])[:80]
+        out[k] = out.get(k, 0) + 1
+    return out
+
+
 def conclude(ctx, enlarged_search=None):
     """Apply the verdict rules of DESIGN.md §2.1 and exit.
 
@@ -363,6 +372,7 @@ def conclude(ctx, enlarged_search=None):
         path = write_replay(ctx, 'failing-input', {
             'what': f0['what'], 'input': f0['input'], 'detail': {k: v for k, v in f0.items() if k not in ('what', 'input')},
             'more_failures': [f['what'] for f in ctx.failures[1:20]],
+            'failure_kinds': _kinds(ctx.failures),
             'broken_theorems': lean.broken if lean else [],
             'disagreements': ctx.disagreements[:5],
         })
@@ -372,6 +382,7 @@ def conclude(ctx, enlarged_search=None):
         what = lean.broken[0] if lean.broken else {'theorem': '(driver build)', 'message': lean.driver_msg}
         path = write_replay(ctx, 'broken-theorem', {'theorem': what, 'all_broken': lean.broken,
                                                     'driver_ok': lean.driver_ok,
+                                                    'disagreements': ctx.disagreements[:10],
                                                     'oracle_verdict': 'no failing input found on the implementation'})
         lines.append(f'VIOLATION property={ctx.pid} replay={path} no-failing-input-found')
     elif ctx.disagreements:
